@@ -126,6 +126,13 @@ func NewReporter(prop string) *Reporter {
 }
 
 func (r *Reporter) Add(v Violation) {
+	// diagnostics only: restrict what is kept (and therefore which replays are written)
+	if f := os.Getenv("VERIF_KEY_FILTER"); f != "" && !strings.Contains(v.Key, f) {
+		return
+	}
+	if f := os.Getenv("VERIF_KEY_EXCLUDE"); f != "" && strings.Contains(v.Key, f) {
+		return
+	}
 	r.mu.Lock()
 	defer r.mu.Unlock()
 	for _, k := range r.known {
